@@ -52,9 +52,15 @@ NH == Len(HsVals)
 
 (* records made of serializable messages *)
 Hs(j) == [t |-> "hs", m |-> HsVals[j]]
+FinN(n) == [t |-> "hs", m |-> [t |-> "Finished", data |-> Fill(n % 251, n)]]
 RecBase == << [ct |-> 22, ver |-> 771, msgs |-> <<Hs(1)>>], [ct |-> 22, ver |-> 769, msgs |-> <<Hs(NH - 2), Hs(5), Hs(500)>>],
               [ct |-> 20, ver |-> 771, msgs |-> <<[t |-> "ccs"]>>], [ct |-> 20, ver |-> 768, msgs |-> <<[t |-> "ccs"], [t |-> "ccs"]>>],
-              [ct |-> 22, ver |-> 65277, msgs |-> <<Hs(440), Hs(470)>>], [ct |-> 22, ver |-> 771, msgs |-> <<Hs(490), Hs(477), Hs(NH - 2)>>] >>
+              [ct |-> 22, ver |-> 65277, msgs |-> <<Hs(440), Hs(470)>>], [ct |-> 22, ver |-> 771, msgs |-> <<Hs(490), Hs(477), Hs(NH - 2)>>],
+              (* several messages whose total is around 2^14 and up to the record cap: one value is one record, whatever its size *)
+              [ct |-> 22, ver |-> 771, msgs |-> <<FinN(16000), FinN(500)>>], [ct |-> 22, ver |-> 771, msgs |-> <<FinN(8188), FinN(8188)>>],
+              [ct |-> 22, ver |-> 771, msgs |-> <<FinN(8188), FinN(8189)>>], [ct |-> 22, ver |-> 769, msgs |-> <<FinN(100), FinN(16000), FinN(520)>>],
+              [ct |-> 22, ver |-> 771, msgs |-> <<FinN(16380)>>], [ct |-> 22, ver |-> 771, msgs |-> <<FinN(16381), [t |-> "hs", m |-> [t |-> "HelloRequest"]]>>],
+              [ct |-> 22, ver |-> 771, msgs |-> <<FinN(8000), FinN(8000), FinN(620)>>] >>
 (* thorough: every ordered pair of a 24-message stride of the pool in one record *)
 PairBase == IF Thorough THEN Concat([x \in 1..24 |-> [y \in 1..24 |-> [ct |-> 22, ver |-> <<771, 769, 768>>[((x + y) % 3) + 1],
                                                                        msgs |-> <<Hs(((x * 21) % (NH - 2)) + 1), Hs(((y * 23 + 7) % (NH - 2)) + 1)>>]]])
@@ -81,7 +87,13 @@ ExtVals == << <<>>,
               << [t |-> "SNI", tag |-> 0, names |-> <<[nt |-> 0, name |-> <<65, 0, 255, 195>>], [nt |-> 1, name |-> <<32, 97, 32>>]>>],
                  [t |-> "SNI", tag |-> 0, names |-> <<[nt |-> 0, name |-> Fill(3, 256)]>>] >>,
               << [t |-> "EllipticCurves", tag |-> 10, groups |-> [k \in 1..300 |-> (k * 251) % 65536]], [t |-> "MaxFragmentLength", tag |-> 0 + 1, v |-> 0] >>,
-              << [t |-> "EllipticCurves", tag |-> 10, groups |-> <<2570, 23, 6682, 64250, 29, 2570>>] >> >>       \* GREASE values among the groups
+              << [t |-> "EllipticCurves", tag |-> 10, groups |-> <<2570, 23, 6682, 64250, 29, 2570>>] >>,       \* GREASE values among the groups
+              (* names that ARE text (valid UTF-8 with multi-byte characters): a length is a number of bytes *)
+              << [t |-> "SNI", tag |-> 0, names |-> <<[nt |-> 0, name |-> <<98, 195, 188, 99, 104, 101, 114, 46, 101, 120, 97, 109, 112, 108, 101>>]>>] >>,
+              << [t |-> "SNI", tag |-> 0, names |-> <<[nt |-> 0, name |-> <<226, 130, 172>>], [nt |-> 0, name |-> <<240, 159, 146, 169, 46, 99, 111, 109>>],
+                                                     [nt |-> 0, name |-> <<195, 169>>]>>],
+                 [t |-> "MaxFragmentLength", tag |-> 1, v |-> 2] >>,
+              << [t |-> "SNI", tag |-> 0, names |-> <<[nt |-> 0, name |-> [k \in 1..200 |-> IF k % 2 = 1 THEN 195 ELSE 169]]>>] >> >>
 (* values the serializer does not support *)
 Unsupported == << [t |-> "hs", m |-> [t |-> "ServerDone", data |-> <<>>]], [t |-> "hs", m |-> [t |-> "Certificate", chain |-> <<>>]],
                   [t |-> "hs", m |-> [t |-> "KeyUpdate", v |-> 0]], [t |-> "hs", m |-> [t |-> "NewSessionTicket", hint |-> <<0, 0>>, ticket |-> <<>>]],
